@@ -382,6 +382,17 @@ def systems(thorough):
         if len(out) == before and kind in ("sparse", "int", "degenerate"): add("%s-%dx%d-#%d+I" % (kind, m, n, k), M, y, shift=1)
     return out
 
+def solve_with(solver, A, b, nthreads=1, fl_mode="default"):
+    """run the extracted solver exactly on the dense symmetric system (A, b); returns the vector of rationals (used by C10 on the systems a monotonic fit hands over)"""
+    prog, params = PROG; n = len(A)
+    it = G.Interp(prog, X14.RatDom(), max_steps=20000000); it.prog_params = params
+    mk, st = install(it, nthreads, fl_mode)
+    S = mk(Sp(n, n, {(i, j): A[i][j] for i in range(n) for j in range(n) if A[i][j] != 0}), 0)
+    o = it.new_obj("dense", 1); o.cells[0] = dict(nrow=n, ncol=1, x=G.Ptr(it.array("Atb", [F(v) for v in b]), 0))
+    cc = it.array("common", [dict(status=0, fl=F(0), lnz=F(0), modfl=F(0), nmethods=9, method=G.Ptr(it.array("methods", [dict(ordering=q) for q in range(10)]), 0))])
+    r = it.call(solver, [S, G.Ptr(o, 0), 0, G.Ptr(cc, 0)])
+    return [v.num for v in r.obj.cells[0]["x"].obj.cells[:n]]
+
 def run_case(args):
     label, A, b, solver, nthreads, fl_mode = args; t0 = time.time(); n = len(A); out = []
     tag = "%s [%s, %d worker%s, work estimate: %s]" % (label, solver, nthreads, "" if nthreads == 1 else "s", fl_mode)
